@@ -147,7 +147,9 @@ def free_search(chk, stats, n_sched):
             for i in range(len(src)):
                 stops.add((os.path.basename(mod.__file__), first + i))
     rng = chk.rng
-    for k in range(n_sched):
+    marks = {}       # number of stops a thread makes before it arrives at its call (measured on the first schedule)
+    extra = 60 if n_sched >= 100 else 0
+    for k in range(n_sched + extra):
         sels, owns = CONFIGS[k % len(CONFIGS)]
         i, j = rng.randrange(0, 40), rng.randrange(0, 40)
         if k % 2 == 0:
@@ -169,6 +171,15 @@ def free_search(chk, stats, n_sched):
             sels, owns = CONFIGS[0]
             schedule = [0] * k + [1] * 400 + [0] * 400
             sched_text = "thread 0: %d stops, thread 1 from start to end, then thread 0 to the end" % k
+        if k >= n_sched:
+            # systematically: thread 1 has activated its probe and waits at its call; thread 0 is stopped after each
+            # number of its own stops in turn; thread 1 then makes its call (its FIRST one under that selector)
+            twice = False
+            sels, owns = CONFIGS[0]
+            a1 = marks.get(1, 30)
+            schedule = [1] * a1 + [0] * (k - n_sched) + [1] * 400 + [0] * 400
+            sched_text = ("thread 1 activates and waits at its call, thread 0: %d stops, thread 1 to the end, then "
+                          "thread 0 to the end" % (k - n_sched))
         if twice:
             sels, owns = CONFIGS[0]
             schedule = [0] * i + [1] * 400 + [0] * 60
@@ -184,6 +195,7 @@ def free_search(chk, stats, n_sched):
 
         def worker(tid, ctrl):
             probes[tid].__enter__()
+            marks.setdefault(tid, ctrl.arrivals[tid])
             ctrl.arrive(tid, ("call", 0))          # a scheduling point between activation and call
             rets[tid] = mod.f(args[tid])
             probes[tid].__exit__(None, None, None)
